@@ -630,6 +630,27 @@ impl<'g> TestList<'g> {
         Ok(test_binary.into_test_suite(RustTestSuiteStatus::Listed { test_cases }))
     }
 
+    /// Verification hook: processes the given listing outputs for one binary exactly as
+    /// [`TestList::new`] does after running it (including the binary-level shortcut).
+    #[cfg(feature = "verif-hooks")]
+    pub fn verif_process_binary(
+        test_binary: RustTestArtifact<'g>,
+        filter: &TestFilterBuilder,
+        ecx: &EvalContext<'_>,
+        bound: FilterBound,
+        non_ignored: &str,
+        ignored: &str,
+    ) -> Result<(RustBinaryId, RustTestSuite<'g>), CreateTestListError> {
+        match filter.filter_binary_match(&test_binary, ecx, bound) {
+            FilterBinaryMatch::Definite | FilterBinaryMatch::Possible => {
+                Self::process_output(test_binary, filter, ecx, bound, non_ignored, ignored)
+            }
+            FilterBinaryMatch::Mismatch { reason } => {
+                Ok(Self::process_skipped(test_binary, reason))
+            }
+        }
+    }
+
     fn process_skipped(
         test_binary: RustTestArtifact<'g>,
         reason: BinaryMismatchReason,
